@@ -25,6 +25,16 @@
     (keys <function>:reuse); the law checker and the model judge the LATER calls against private copies of the
     data; R, J, x rotate through contiguous / transposed / strided-slice-of-a-larger-base / expand()ed stride-0 /
     empty layouts and the calls through keyword, positional, .forward and torch.no_grad() forms.
+(F) ambient grad modes x argument kinds (run_grad_modes): every corrector x kernel (the seven built-in ones, Tolerant with
+    a/|b| = 45, user kernels with rho'' > 0, = 0, < 0; zero / threshold / generic blocks in one tensor) and
+    Triggs.compute_grads, on objects shared by all modes, under default / torch.no_grad() (context and decorator, as
+    GN.step / LM.step call the corrector) / enable_grad / set_grad_enabled(False) / no_grad>enable_grad /
+    enable_grad>no_grad, with R, J plain / leaf requiring grad / non-leaf with a graph / inference tensors; the law
+    checker judges every distinct output, compute_grads' rho', rho'' are compared with mpmath, arguments compared bit
+    for bit and torch.is_grad_enabled() compared after each call; the built-in kernels' forward (values against the
+    closed form, rejection of a negative entry) in the same modes.  Ambient torch.inference_mode() is outside the
+    property (autograd cannot record there; FastTriggs asserts it).  The repaired-defect witnesses are also tied to
+    the model under torch.no_grad().
 The witnesses of the defects repaired in /repo (e6f8307 Scale accepted negative input, 298dcfc
 Triggs dropped R on masked blocks, af4d69c Triggs raised for constant-slope kernels, 3a06748 Triggs raised for a
 column-major J with R of shape (2, 2, 1)) are directed
@@ -47,6 +57,8 @@ RULE = ('kernels: (kernel, p1, p2, x) with delta log-uniform in [1e-3, 1e3] (Sca
         'dyadics / gaussians / zero blocks / blocks exactly at the Huber threshold; one case per block and corrector, non-trivial when R_i != 0; '
         'every judged call is the 2nd+ call on its object and on the SAME tensors (FastTriggs, Triggs, FastTriggs, Triggs without cloning); arguments and view bases '
         'snapshotted and compared bit for bit after every call; layouts contiguous / transposed / strided / expanded / empty, forms keyword / positional / forward / no_grad rotate; '
+        'grad modes: (corrector or compute_grads or kernel, kernel, ambient mode in default / no_grad / no_grad decorator / enable_grad / set_grad_enabled(False) / nested, '
+        'R and J plain / leaf / graph / inference tensor), one tensor per kernel with zero, threshold and generic blocks, law checker on every distinct output; '
         'tolerance %d eps relative to the magnitude of the intermediate terms of the coded formula; law tolerance %g relative' % (K_EPS, LAW_TOL))
 
 
@@ -920,6 +932,218 @@ def empty_and_alias_checks(ctx, pp, torch):
             ctx.violation('kernel:%s:empty' % KNAMES[kid], why, c)
 
 
+# ------------------------------------------------------------------ (F) ambient grad modes x arguments with / without a graph
+# The property holds for any R, J on every call: also when the caller has switched autograd off around the call (GN.step /
+# LM.step are decorated with torch.no_grad()), switched it on again inside, or hands over tensors that require grad, are
+# part of a graph, or were created under torch.inference_mode().  Ambient torch.inference_mode() itself is outside: autograd
+# cannot record there at all (FastTriggs documents and asserts it).
+GRAD_MODES = ['default', 'no_grad', 'enable_grad', 'set_grad_enabled(False)', 'no_grad>enable_grad', 'enable_grad>no_grad', 'no_grad-decorator']
+ARG_KINDS = [('plain', 'plain'), ('leaf', 'plain'), ('graph', 'plain'), ('inference', 'plain'), ('plain', 'leaf'), ('graph', 'graph'), ('leaf', 'inference')]
+GRAD_KERNELS = ['Sq', 'P25', 'Id', 'S1', 'L1', 'Shift', 'Tolerant45'] + KNAMES
+
+
+def in_grad_mode(torch, mode, fn):
+    """fn() under the ambient grad mode `mode`: (result, grad mode seen before fn, grad mode seen after fn, both inside the context)"""
+    import contextlib
+    if mode == 'no_grad-decorator':                     # exactly how GaussNewton.step / LevenbergMarquardt.step reach the corrector
+        box = []
+
+        @torch.no_grad()
+        def step():
+            box.append(torch.is_grad_enabled())
+            r = fn()
+            box.append(torch.is_grad_enabled())
+            return r
+        with torch.enable_grad():
+            r = step()
+        return r, box[0], box[1]
+    with contextlib.ExitStack() as st:
+        st.enter_context(torch.enable_grad())
+        for part in mode.split('>'):
+            if part == 'no_grad':
+                st.enter_context(torch.no_grad())
+            elif part == 'enable_grad':
+                st.enter_context(torch.enable_grad())
+            elif part == 'set_grad_enabled(False)':
+                st.enter_context(torch.set_grad_enabled(False))
+        before = torch.is_grad_enabled()
+        r = fn()
+        return r, before, torch.is_grad_enabled()
+
+
+def grad_arg(torch, vals, shape, kind):
+    """a tensor holding exactly `vals`: plain / leaf requiring grad / non-leaf with a graph behind it / inference tensor"""
+    t = torch.tensor(vals, dtype=torch.float64).reshape(shape)
+    if kind == 'leaf':
+        return t.requires_grad_(True)
+    if kind == 'graph':
+        with torch.enable_grad():
+            a = (t * 0.5).requires_grad_(True)
+            return a * 2.0                               # exact
+    if kind == 'inference':
+        with torch.inference_mode():
+            return t.clone()
+    return t
+
+
+def grads_off(kind, p1, p2, x, g1, g2):
+    """the oracle hypothesis on (rho', rho'') as autograd / compute_grads returned them at x: text when one is not the true derivative"""
+    r, r1, r2 = true_rho(kind, p1, p2, F(x))
+    thr = kind == 0 and F(x) == F(p1) ** 2
+    t1 = t2 = 0.0
+    if not isinstance(kind, str) and math.isfinite(g1):
+        _, t1, t2 = kernel_tols(kind, p1, p2, x, 0.0, g1, 0.0 if g2 is None else g2)
+    off1 = not math.isfinite(g1) or abs(mpf(g1) - r1) > 1e-9 * abs(r1) + 2 * t1 + 1e-300
+    off2 = g2 is not None and not thr and (not math.isfinite(g2) or abs(mpf(g2) - r2) > 1e-9 * abs(r2) + 2 * t2 + 1e-300)
+    if off1 or off2:
+        return "compute_grads returned rho'=%r rho''=%r at x=%r, true values %s %s" % (g1, g2, x, r1, r2)
+    return None
+
+
+def grad_mode_call(pp, torch, spec, k, cors, Rb, Jb, batch, mode, rk, jk):
+    """compute_grads, FastTriggs, Triggs (objects `cors`, kernel object k: used before, in other modes) on fresh tensors of
+    kinds (rk, jk) holding Rb, Jb, under the ambient grad mode: dict(outs={cname: out}, grads, finds=[(key, text, cname)])"""
+    nb, d, p = len(Rb), len(Rb[0]), len(Jb[0][0])
+    where = 'ambient grad mode %s, R %s %s, J %s' % (mode, tuple(batch) + (d,), rk, jk)
+    finds, outs = [], {}
+    for cname in ('grads', 'FastTriggs', 'Triggs'):
+        Rt, Jt = grad_arg(torch, Rb, tuple(batch) + (d,), rk), grad_arg(torch, Jb, (nb * d, p), jk)
+        keep = (Rt.detach().clone(), Jt.detach().clone(), Rt.requires_grad, Jt.requires_grad)
+        fname = 'Triggs.compute_grads' if cname == 'grads' else cname + '.forward'
+        try:
+            if cname == 'grads':
+                (x, g1, g2), m0, m1 = in_grad_mode(torch, mode, lambda: cors['Triggs'].compute_grads(Rt))
+                outs[cname] = (x.reshape(-1).tolist(), g1.reshape(-1).tolist(), g2.reshape(-1).tolist())
+            else:
+                res, m0, m1 = in_grad_mode(torch, mode, lambda: cors[cname](R=Rt, J=Jt))
+                outs[cname] = as_blocks(torch, res, Rt, Jt)
+            if m0 != m1:
+                finds.append(('mutation:grad-mode:' + fname, '%s(%s) (%s) left torch.is_grad_enabled() = %r, it was %r before the call' % (fname, spec[0], where, m1, m0), cname))
+        except Exception as e:  # noqa
+            outs[cname] = ('raises', ('%s: %s' % (type(e).__name__, e))[:200])
+        if not (same_bits(torch, Rt, keep[0]) and same_bits(torch, Jt, keep[1]) and (Rt.requires_grad, Jt.requires_grad) == keep[2:]):
+            finds.append(('mutation:' + fname, '%s(%s) (%s) changed its arguments: R = %s (requires_grad %r), J = %s (requires_grad %r) after the call'
+                          % (fname, spec[0], where, Rt.detach().tolist(), Rt.requires_grad, Jt.detach().tolist(), Jt.requires_grad), cname))
+    return dict(outs=outs, finds=finds, where=where)
+
+
+def grad_mode_judge(spec, Rb, Jb, res, cache):
+    """the law checker on the outputs of one grad_mode_call; equal outputs are judged once (cache)"""
+    label, kind, p1, p2, _ = spec
+    finds = list(res['finds'])
+    outs, where = res['outs'], res['where']
+    g = outs['grads']
+    if g[0] == 'raises':
+        finds.append(('Triggs.compute_grads:raises:grad-mode', 'Triggs(%s).compute_grads raised (%s): %s' % (label, where, g[1][:120]), 'grads'))
+    else:
+        ck = ('grads', repr(g))
+        if ck not in cache:
+            xs = [float(sum(F(v) * F(v) for v in r)) for r in Rb]
+            near = len(g[0]) == len(xs) and all(abs(a - b) <= 8 * EPS * b for a, b in zip(g[0], xs))
+            bad = None if near else 'compute_grads returned x = %r for |R_i|^2 = %r' % (g[0], xs)
+            for i in range(len(Rb)):
+                bad = bad or grads_off(kind, p1, p2, g[0][i], g[1][i], g[2][i])
+            cache[ck] = bad
+        if cache[ck]:
+            finds.append(('autograd-contract:%s:grad-mode' % label, '%s: %s' % (where, cache[ck]), 'grads'))
+    for cname in ('FastTriggs', 'Triggs'):
+        out = outs[cname]
+        if out[0] == 'raises':
+            finds.append(('%s.forward:raises:grad-mode' % cname, "%s(%s) raised / returned no (R', J') (%s): %s" % (cname, label, where, out[1][:120]), cname))
+            continue
+        ck = (cname, repr(out), repr(outs['FastTriggs']) if cname == 'Triggs' else '')
+        if ck not in cache:
+            cache[ck] = law_check(spec, cname, Rb, Jb, out, outs['FastTriggs'], None)
+        for key, text in cache[ck]:
+            finds.append((key, '%s, R = %s, J = %s: %s' % (where, Rb, Jb, text), cname))
+    return finds
+
+
+def kernel_mode_call(pp, torch, kid, k, xs, mode, xk):
+    """the kernel object k on a fresh tensor of kind xk holding xs under the ambient grad mode: list of values or ('raises', text)"""
+    xt = grad_arg(torch, xs, (len(xs),), xk)
+    keep = xt.detach().clone()
+    finds = []
+    try:
+        y, m0, m1 = in_grad_mode(torch, mode, lambda: k(xt))
+        out = y.detach().reshape(-1).tolist() if hasattr(y, 'shape') and tuple(y.shape) == (len(xs),) else ('raises', 'returned %r' % (getattr(y, 'shape', y),))
+        if m0 != m1:
+            finds.append(('mutation:grad-mode:kernel.%s.forward' % KNAMES[kid], 'left torch.is_grad_enabled() = %r, it was %r before the call' % (m1, m0)))
+    except Exception as e:  # noqa
+        out = ('raises', ('%s: %s' % (type(e).__name__, e))[:200])
+    if not same_bits(torch, xt, keep):
+        finds.append(('mutation:kernel.%s.forward' % KNAMES[kid], 'changed its input to %r' % (xt.detach().tolist(),)))
+    return out, finds
+
+
+def kernel_mode_judge(kid, p1, p2, xs, neg, out, finds, where, cache):
+    """closed form of the values (mpmath) / rejection of the negative entry; equal outputs are judged once"""
+    res = [(key, '%s(%r,%r).forward(%r) (%s) %s' % (KNAMES[kid], p1, p2, xs, where, text)) for key, text in finds]
+    if neg:
+        if out[0] != 'raises':
+            res.append(('kernel:%s:negative-input:accepted' % KNAMES[kid], '%s(%r,%r).forward(%r) (%s) returns %r instead of rejecting the negative entry' % (KNAMES[kid], p1, p2, xs, where, out)))
+        return res
+    if out[0] == 'raises':
+        res.append(('kernel:%s:raises' % KNAMES[kid], '%s(%r,%r).forward(%r) (%s): %s' % (KNAMES[kid], p1, p2, xs, where, out[1][:120])))
+        return res
+    ck = repr(out)
+    if ck not in cache:
+        bad = []
+        for x, y in zip(xs, out):
+            r = true_rho(kid, p1, p2, x)[0]
+            if not math.isfinite(y) or abs(mpf(y) - r) > 2 * kernel_tols(kid, p1, p2, x, y, 0.0, 0.0)[0]:
+                bad.append('rho(%r) = %r, closed form %s' % (x, y, r))
+        cache[ck] = '; '.join(bad[:3])
+    if cache[ck]:
+        res.append(('kernel:%s:closed-form' % KNAMES[kid], '%s(%r,%r) (%s): %s' % (KNAMES[kid], p1, p2, where, cache[ck])))
+    return res
+
+
+def run_grad_modes(ctx, pp, torch):
+    """every corrector x kernel (built-in and user, rho'' > 0, = 0, < 0, zero / threshold / generic blocks in one tensor) and
+    every built-in kernel under every ambient grad mode x argument kind; the objects are shared by all modes (each judged call
+    is a later call on its object, after calls in OTHER modes)"""
+    rng = ctx.rng
+    for n, which in enumerate(GRAD_KERNELS):
+        spec = kernel_spec(rng, which)
+        d, p = 1 + n % 3, 1 + (n // 2) % 2
+        thr = abs(spec[2]) if which == 'Huber' else 1.0
+        kinds = ['two', 'big', 'zero'] if which == 'Shift' else ['gauss', 'zero', 'axis', 'dyadic'] if n % 2 else ['dyadic', 'gauss', 'zero']
+        batch = (2, 2) if len(kinds) == 4 else (3,)
+        Rb = torch.tensor([gen_block(rng, d, kd, thr) for kd in kinds], dtype=torch.float64).tolist()
+        Jb = [[[dy(rng, 3, 4) if rng.random() < 0.5 else rng.gauss(0, 2) for _ in range(p)] for _ in range(d)] for _ in kinds]
+        k = build_kernel(pp, torch, spec)
+        cors = dict((cname, getattr(pp.optim.corrector, cname)(k)) for cname in ('FastTriggs', 'Triggs'))
+        cache, seen = {}, set()
+        base = dict(kind='grad-mode', spec=list(spec), R=Rb, J=Jb, batch=list(batch))
+        for mode in GRAD_MODES:
+            for rk, jk in ARG_KINDS:
+                res = grad_mode_call(pp, torch, spec, k, cors, Rb, Jb, batch, mode, rk, jk)
+                ctx.case(('grad-mode', which, mode, rk, jk, repr(Rb)), nontrivial=True, branch='grad-mode:%s' % mode)
+                ctx.count('grad-mode-args:R=%s,J=%s' % (rk, jk))
+                ctx.traces += 1
+                for key, text, cname in grad_mode_judge(spec, Rb, Jb, res, cache):
+                    if (key, cname) not in seen:
+                        seen.add((key, cname))
+                        ctx.violation(key, text, dict(base, mode=mode, rk=rk, jk=jk, corrector=cname, key=key))
+    for kid in range(7):
+        p1, p2 = gen_params(rng, kid)
+        k = make_kernel(pp, kid, p1, p2)
+        xs = [float(torch.tensor(gen_x(rng, kid, p1, kd, p2), dtype=torch.float64)) for kd in ['zero', 'tiny', 'thr-', 'thr+', 'one', 'large']]
+        cache, seen = {}, set()
+        for mode in GRAD_MODES:
+            for xk in ('plain', 'leaf', 'graph', 'inference'):
+                for neg in (False, True):
+                    vals = xs[:3] + [-xs[4]] + xs[3:] if neg else xs
+                    out, finds = kernel_mode_call(pp, torch, kid, k, vals, mode, xk)
+                    where = 'ambient grad mode %s, input %s' % (mode, xk)
+                    ctx.case(('grad-mode-kernel', kid, p1, p2, mode, xk, neg), nontrivial=True, branch='grad-mode-kernel:%s' % mode)
+                    for key, text in kernel_mode_judge(kid, p1, p2, vals, neg, out, finds, where, cache):
+                        if key not in seen:
+                            seen.add(key)
+                            ctx.violation(key, text, dict(kind='grad-mode-kernel', kid=kid, p1=p1, p2=p2, xs=vals, neg=neg, mode=mode, xk=xk, key=key))
+
+
 def run_correctors(ctx, pp, torch):
     rng = ctx.rng
     cases, meta = [], []
@@ -966,6 +1190,9 @@ def run_correctors(ctx, pp, torch):
     # the built-in Tolerant kernel) and af4d69c (constant slope)
     for spec, Rw, Jw in WITNESSES:
         corrector_tensor(ctx, pp, torch, spec, Rw, Jw, (1,), cases, meta)
+    # the masked branch (rho'' > 0) and the constant-slope kernels also reached the way GN / LM reach them: under torch.no_grad()
+    for (spec, Rw, Jw), form in zip(WITNESSES, ('kw-nograd', 'pos-nograd', 'kw-nograd', 'pos-nograd')):
+        corrector_tensor(ctx, pp, torch, spec, [[2.0 * v for v in r] for r in Rw], Jw, (1,), cases, meta, 'contig', 'contig', form)
     # 3a06748: Triggs raised (view of a tensor with permuted strides) for a column-major J with R of shape (2, 2, 1)
     for form in ('kw', 'pos-nograd'):
         corrector_tensor(ctx, pp, torch, ('Cauchy', 2, 1.0, 0.0, True), [[1.0], [2.0], [0.5], [-1.0]],
@@ -1031,6 +1258,24 @@ def replay(ctx, c):
         y = k(torch.tensor([c['x'], c['x2']], dtype=torch.float64)).tolist()
         ty = kernel_tols(c['kid'], c['p1'], c['p2'], c['x2'], y[1], 0, 0)[0]
         return 'rho(%r)=%r > rho(%r)=%r' % (c['x'], y[0], c['x2'], y[1]) if y[1] < y[0] - 4 * ty else None
+    if kind == 'grad-mode':
+        spec = tuple(c['spec'])
+        k = build_kernel(pp, torch, spec)
+        cors = dict((cname, getattr(pp.optim.corrector, cname)(k)) for cname in ('FastTriggs', 'Triggs'))
+        grad_mode_call(pp, torch, spec, k, cors, c['R'], c['J'], tuple(c['batch']), 'default', 'plain', 'plain')     # the objects have been used before
+        res = grad_mode_call(pp, torch, spec, k, cors, c['R'], c['J'], tuple(c['batch']), c['mode'], c['rk'], c['jk'])
+        bad = [text for key, text, cname in grad_mode_judge(spec, c['R'], c['J'], res, {}) if c.get('key') in (None, key) and c.get('corrector') in (None, cname)]
+        return '; '.join(bad) if bad else None
+    if kind == 'grad-mode-kernel':
+        k = make_kernel(pp, c['kid'], c['p1'], c['p2'])
+        try:
+            k(torch.tensor([[0.5], [2.0], [0.0]], dtype=torch.float64))
+        except Exception:  # noqa
+            pass
+        out, finds = kernel_mode_call(pp, torch, c['kid'], k, c['xs'], c['mode'], c['xk'])
+        bad = [text for key, text in kernel_mode_judge(c['kid'], c['p1'], c['p2'], c['xs'], c['neg'], out, finds, 'ambient grad mode %s, input %s' % (c['mode'], c['xk']), {})
+               if c.get('key') in (None, key)]
+        return '; '.join(bad) if bad else None
     if kind == 'corrector':
         spec = tuple(c['spec'])
         h, finds = judge_history(pp, torch, spec, c['R'], c['J'], tuple(c['batch']), c.get('layR', 'contig'), c.get('layJ', 'contig'), c.get('form', 'kw'))
@@ -1081,7 +1326,10 @@ def run(ctx):
     # inputs are generated and the implementation is run sequentially (one PRNG); the two families of
     # Coq case files are then checked concurrently
     jobs = [run_kernel_enclosure(ctx, pp, torch), run_correctors(ctx, pp, torch)]
+    tg = time.time()
+    run_grad_modes(ctx, pp, torch)              # (after the generators above: their PRNG stream is unchanged)
     t1 = time.time()
+    ctx.notes.append('ambient grad modes x argument kinds: %.1f s' % (t1 - tg))
     with ThreadPoolExecutor(max_workers=2 if NCPU >= 12 else 1) as ex:
         futs = [ex.submit(coq) for coq, _ in jobs]
         results = [f.result() for f in futs]
